@@ -189,7 +189,7 @@ func realCase(rng *rand.Rand) *realRun {
 			return nil
 		}
 	}
-	kind := []string{"idle", "idle", "hard", "hard", "cancel", "disc"}[rng.Intn(6)]
+	kind := []string{"idle", "idle", "hard", "hard", "cancel", "disc", "failonly"}[rng.Intn(7)]
 	n1 := W + 1 + rng.Intn(W+2)
 	if rng.Intn(5) == 0 {
 		n1 = 1 + rng.Intn(W)
@@ -224,6 +224,15 @@ func realCase(rng *rand.Rand) *realRun {
 		if W == 1 {
 			W = 2
 		}
+	case "failonly":
+		// unlimited retries, a hard deadline, and peers that only ever fail
+		// (each disconnects on its request, the later ones after the
+		// deadline): the deadline must end the batch at the first result
+		// processed after it
+		opts = append(opts, query.NoRetryMax(), query.Timeout(time.Duration(15+rng.Intn(10))*time.Millisecond))
+		mode = "disc"
+		W = 3
+		n1 = 1 + rng.Intn(2)
 	}
 	for i := 0; i < W; i++ {
 		m := mode
@@ -232,6 +241,10 @@ func realCase(rng *rand.Rand) *realRun {
 		}
 		if kind == "idle" && mode == "final" && i > 0 {
 			m = "silent"
+		}
+		if kind == "failonly" {
+			// the best-ranked peers fail early, the last one well after the deadline
+			delay = time.Duration(5+45*i) * time.Millisecond
 		}
 		if !connect(m, delay) {
 			r.emit("rpeer", "HANG")
@@ -264,7 +277,7 @@ func realCase(rng *rand.Rand) *realRun {
 	for _, p := range peers {
 		p.set("final", 0)
 	}
-	if kind == "disc" || rng.Intn(4) == 0 {
+	if kind == "disc" || kind == "failonly" || rng.Intn(4) == 0 {
 		if !connect("final", 0) {
 			r.emit("rpeer", "HANG")
 			return r
@@ -325,7 +338,12 @@ func realCase(rng *rand.Rand) *realRun {
 }
 
 // RunReal runs the cases a few at a time (they mostly sleep on timers).
+// realHangs counts HANG observations over all cases; no new case is started
+// once a handful have been seen (each costs a deadline).
+var realHangs atomic.Int64
+
 func RunReal(t *tr.W, thorough bool) {
+	tr.MaxHangs = 8
 	n := 150 * tr.EnvInt("VERIF_BUDGET", 1)
 	if thorough {
 		n *= 10
@@ -342,11 +360,22 @@ func RunReal(t *tr.W, thorough bool) {
 		go func() {
 			defer wg.Done()
 			defer func() { <-sem }()
+			if realHangs.Load() >= 4 {
+				return
+			}
 			res[i] = realCase(rng)
+			for _, l := range res[i].lines {
+				if strings.Contains(l.obs, "HANG") {
+					realHangs.Add(1)
+				}
+			}
 		}()
 	}
 	wg.Wait()
 	for _, r := range res {
+		if r == nil {
+			continue
+		}
 		t.Case("real")
 		for _, l := range r.lines {
 			t.Op(l.op, l.obs)
